@@ -409,65 +409,71 @@ func r055(c *Ctx, r *R) {
 			continue
 		}
 		gs := lf.Guards()
-		sameType, notErr, notDone, found := false, false, false, false
-		for _, g := range gs {
-			if l, idx := mapLookupOf(g.Cond); l != nil && idx == 1 && g.Branch {
-				found = true
-			}
-			if b, ok := g.Cond.(*ssa.BinOp); ok && (b.Op == token.EQL || b.Op == token.NEQ) {
+		// each requirement is met by a guard directly or by the answer of a
+		// boolean helper that implies it (`if opt.ongoing(c, typ) { return nil }`)
+		phaseNot := func(k constant.Value) func(g Guard) bool {
+			return func(g Guard) bool {
+				b, ok := g.Cond.(*ssa.BinOp)
+				if !ok || (b.Op != token.EQL && b.Op != token.NEQ) {
+					return false
+				}
 				cx, _ := originCall(b.X)
 				eq := (b.Op == token.EQL) == g.Branch
-				if cx != nil && nameMatches(callName(cx.Common()), "optracker.Operation).Type") && paramIndex(f, b.Y) == 3 && eq {
-					sameType = true
-				}
-				if cx != nil && nameMatches(callName(cx.Common()), "optracker.Operation).Phase") && !eq {
-					if isConst(b.Y, phErr) {
-						notErr = true
-					}
-					if isConst(b.Y, phDone) {
-						notDone = true
-					}
-				}
+				return cx != nil && nameMatches(callName(cx.Common()), "optracker.Operation).Phase") && !eq && isConst(b.Y, k)
 			}
 		}
+		any := func(pred func(g Guard) bool) bool {
+			for _, g := range gs {
+				if establishes(g, pred) {
+					return true
+				}
+			}
+			return false
+		}
+		found := any(func(g Guard) bool { l, idx := mapLookupOf(g.Cond); return l != nil && idx == 1 && g.Branch })
+		sameType := any(func(g Guard) bool {
+			b, ok := g.Cond.(*ssa.BinOp)
+			if !ok || (b.Op != token.EQL && b.Op != token.NEQ) {
+				return false
+			}
+			cx, _ := originCall(b.X)
+			eq := (b.Op == token.EQL) == g.Branch
+			return cx != nil && nameMatches(callName(cx.Common()), "optracker.Operation).Type") && paramIndex(f, b.Y) == 3 && eq
+		})
+		notErr, notDone := any(phaseNot(phErr)), any(phaseNot(phDone))
 		r.Check(found && sameType && notErr && notDone, "dedupe-condition", lf.Pos, "nil (already ongoing) only for an existing operation of the same type that is neither failed nor done",
 			fmt.Sprintf("TrackNewOperation refuses a new operation without requiring same type (%v), phase != error (%v), phase != done (%v): a retry after failure or an opposite instruction would be dropped", sameType, notErr, notDone))
 	}
-	// replaced operation is cancelled: from the found-edge, the store is
-	// not reachable without passing Cancel
-	var foundSucc *ssa.BasicBlock
-	for _, b := range f.Blocks {
-		if iff, ok := b.Instrs[len(b.Instrs)-1].(*ssa.If); ok {
-			if l, idx := mapLookupOf(iff.Cond); l != nil && idx == 1 {
-				foundSucc = b.Succs[0]
+	// replaced operation is cancelled: every path to the store saw the
+	// table without an entry for the CID or called Cancel - here or in a
+	// boolean helper whose answer decides the path
+	notFound := func(g Guard) bool {
+		l, idx := mapLookupOf(g.Cond)
+		return l != nil && idx == 1 && !g.Branch
+	}
+	hasCancel := func(b *ssa.BasicBlock) bool {
+		for _, in := range b.Instrs {
+			if ci, ok := in.(ssa.CallInstruction); ok && nameMatches(callName(ci.Common()), "optracker.Operation).Cancel") {
+				return true
 			}
+		}
+		return false
+	}
+	nCancel := len(findCallsDeep(f, "optracker.Operation).Cancel"))
+	absentOrCancelled := func(g Guard) bool { return establishesX(g, notFound, hasCancel) }
+	sameBlock := false
+	for _, in := range upd.Block().Instrs {
+		if in == ssa.Instruction(upd) {
+			break
+		}
+		if ci, ok := in.(ssa.CallInstruction); ok && nameMatches(callName(ci.Common()), "optracker.Operation).Cancel") {
+			sameBlock = true
 		}
 	}
-	cancels := findCalls(f, false, "optracker.Operation).Cancel")
-	if foundSucc == nil || len(cancels) == 0 {
+	if nCancel == 0 {
 		r.Bad("cancel-replaced", f.Pos(), "an existing operation is replaced without being cancelled (its IPFS request keeps running)")
 	} else {
-		avoid := map[*ssa.BasicBlock]bool{}
-		for _, ci := range cancels {
-			avoid[ci.Block()] = true
-		}
-		seen := map[*ssa.BasicBlock]bool{}
-		reach := false
-		var walk func(b *ssa.BasicBlock)
-		walk = func(b *ssa.BasicBlock) {
-			if seen[b] || avoid[b] {
-				return
-			}
-			seen[b] = true
-			if b == upd.Block() {
-				reach = true
-			}
-			for _, s := range b.Succs {
-				walk(s)
-			}
-		}
-		walk(foundSucc)
-		r.Check(!reach, "cancel-replaced", cancels[0].Pos(), "an existing operation is cancelled before it is replaced", "an existing operation can be replaced without being cancelled (its IPFS request keeps running and may complete after the new one)")
+		r.Check(sameBlock || mustPassX(upd.Block(), absentOrCancelled, hasCancel), "cancel-replaced", upd.Pos(), "an existing operation is cancelled before it is replaced", "an existing operation can be replaced without being cancelled (its IPFS request keeps running and may complete after the new one)")
 	}
 	r.Check(lockHeldAt(upd, "mu"), "under-lock", upd.Pos(), "lookup, cancel and store happen under the tracker mutex", "the operation table is updated without the tracker mutex")
 }
